@@ -9,7 +9,7 @@ PROP = "C18"
 LEVEL = "translation_validation"
 ANCHOR_PREFIXES = ["reuse::", "context::", "transform::", "position::Position", "element::SvgElement::resolve_position", "element::", "expression::eval_vars"]
 BOUNDS = ("templates {rect, circle, ellipse at the origin; group of two shapes; symbol} in <specs>, parameterised by variables in geometry (symbolic) and in text/class (concrete strings); "
-          "self-sufficient templates inline and in <defs> (before and after their use); 1-3 instantiations with different symbolic bindings, optional id / class / style, placement by x+y, x, y, "
+          "self-sufficient templates inline and in <defs> (before and after their use); self-sufficient group/symbol templates inline / in <defs> / in <specs> reused with an own transform (rotate, scale) and placed by x+y, x, cxy, x2+y2, xy with xy-loc; bindings to the empty string under a global variable, a group attribute or an outer instantiation of the same name; two-level nested instantiation; 1-3 instantiations with different symbolic bindings, optional id / class / style, placement by x+y, x, y, "
           "xy, cxy or none; values k/2 in [-64,64], sizes k/2 in [0,32]")
 ASSUMPTIONS = ["the hand-written twin: target element with the reuse attributes substituted for $variables, the reuse element's id/style/classes, the target id added as class, placed at x/y "
                "(shape: top-left of its bounding box; group/symbol: transform=translate(x, y), symbol rendered as <g>)", "class attributes are compared as sets",
@@ -66,6 +66,21 @@ def templates(tier, seed):
     for order in ("fwd-first", "fwd-second", "fwd-both"):
         for outer in ("var", "g-attr"):
             tds.append(dict(fam="retry-independence", order=order, outer=outer))
+    # group templates that are complete in themselves (content size known when reused), wherever they live; the reuse element
+    # carries its own transform and/or places the instance by something that needs the template's size
+    for where in ("inline-before", "inline-after", "specs", "defs-before"):
+        for place in ("xy-attrs", "x", "none", "cxy", "x2y2", "xy-loc-br"):
+            for xf in ("none", "rotate", "scale"):
+                for tag in ("g", "symbol"):
+                    if tag == "symbol" and where.startswith("inline"):
+                        continue
+                    tds.append(dict(fam="groupfixed", where=where, place=place, xf=xf, tag=tag))
+    for how in ("global-var", "g-attr", "outer-reuse", "none"):
+        for tgt in ("text", "class"):
+            tds.append(dict(fam="empty-binding", how=how, tgt=tgt))
+    for place in ("xy-attrs", "none"):
+        for n in (1, 2):
+            tds.append(dict(fam="nested", place=place, n=n))
     tds.append(dict(fam="specs-hidden"))
     for how in ("global-reassigned", "reuse-attr-overrides", "both"):
         for where in ("inline", "specs"):
@@ -105,6 +120,7 @@ def build(td, wrong=False):
             return compare_outputs(Out(r.docs[0]["output"]), Out(r.docs[1]["output"]), wrong=wrong)
         return Template("specs-hidden", [d0, d1], vars_, check_h, family="specs", role="C18/specs", cap=4)
     reuse_doc, twin_doc = [], []
+    assume = []
     if fam == "shape":
         tmpl, twinfn = SHAPES[td["shape"]]
         head = f"<specs>{tmpl}</specs>"
@@ -188,6 +204,82 @@ def build(td, wrong=False):
             d0 = f'<svg>{tmpl}{early}<g s="[[{ka}]]">{i0}{i1}</g>{later}</svg>'
             d1 = f'<svg>{early}<g s="[[{ka}]]">{t0}{t1}</g>{later}</svg>'
         inst_vars.append(list(range(ka, len(vars_))))
+    elif fam == "groupfixed":
+        # content: rect (0,0)-(W,3) and circle centre (W,H) r=1 => content box (0,0)-(W+1, max(3,H+1)); to keep the hand-written
+        # translation simple the circle is replaced by a second rect so that the box is exactly (0,0)-(W,H)
+        kw = alloc([(6, *S), (4, *S)])
+        W, H = f"[[{kw}]]", f"[[{kw + 1}]]"
+        body = f'<rect xy="0" wh="{W} 1"/><rect xy="0" wh="1 {H}"/>'
+        tag = td["tag"]
+        tmpl = f'<{tag} id="t">{body}</{tag}>'
+        kp = alloc([(30, *V), (-9, *V)])
+        a, b = f"[[{kp}]]", f"[[{kp + 1}]]"
+        # the content box is (0,0)-(max(W,1), max(H,1)): sizes are kept >= 1 through the assumption below
+        place = td["place"]
+        ra, tr = {"xy-attrs": (f' x="{a}" y="{b}"', (a, b)), "x": (f' x="{a}"', (a, "0")), "none": ("", None),
+                  "cxy": (f' cxy="{a} {b}"', (f"{{{{{a} - {W} / 2}}}}", f"{{{{{b} - {H} / 2}}}}")),
+                  "x2y2": (f' x2="{a}" y2="{b}"', (f"{{{{{a} - {W}}}}}", f"{{{{{b} - {H}}}}}")),
+                  "xy-loc-br": (f' xy="{a} {b}" xy-loc="br"', (f"{{{{{a} - {W}}}}}", f"{{{{{b} - {H}}}}}"))}[place]
+        xf = {"none": "", "rotate": "rotate(30)", "scale": "scale(2)"}[td["xf"]]
+        rx = f' transform="{xf}"' if xf else ""
+        use = f'<reuse id="i0" href="#t"{rx}{ra}/>'
+        parts = [xf] if xf else []
+        if tr is not None:
+            parts.append(f"translate({tr[0]}, {tr[1]})")
+        tx = f' transform="{" ".join(parts)}"' if parts else ""
+        twin = f'<g id="i0"{tx} class="t">{body}</g>'
+        where = td["where"]
+        wrapped = {"inline-before": tmpl, "inline-after": tmpl, "specs": f"<specs>{tmpl}</specs>", "defs-before": f"<defs>{tmpl}</defs>"}[where]
+        twrapped = "" if where == "specs" else wrapped
+        if where == "inline-after":
+            d0, d1 = f"<svg>{use}{wrapped}</svg>", f"<svg>{twin}{twrapped}</svg>"
+        else:
+            d0, d1 = f"<svg>{wrapped}{use}</svg>", f"<svg>{twrapped}{twin}</svg>"
+        inst_vars.append(list(range(kw, len(vars_))))
+        assume = [ge(f"v{kw}", "1.0"), ge(f"v{kw + 1}", "1.0")]
+    elif fam == "empty-binding":
+        # a binding to the empty string is a binding: it hides any outer variable of the same name
+        kw = alloc([(6, *S), (4, *S)])
+        kp = alloc([(30, *V), (-9, *V)])
+        if td["tgt"] == "text":
+            tmpl = '<rect id="t" wh="$w $h" text="[${lab}]"/>'
+            tw = lambda v: f'text="[{v}]"'
+        else:
+            tmpl = '<rect id="t" wh="$w $h" class="k${lab}z"/>'
+            tw = lambda v: f'class="k{v}z t"'
+        inst = lambda lab, i, y: f'<reuse href="#t" w="[[{kw}]]" h="[[{kw + 1}]]"{lab} x="[[{kp}]]" y="{y}"/>'
+        twn = lambda v, y: f'<rect xy="[[{kp}]] {y}" wh="[[{kw}]] [[{kw + 1}]]" {tw(v)}{"" if td["tgt"] == "class" else " class=" + chr(34) + "t" + chr(34)}/>'
+        how = td["how"]
+        if how == "global-var":
+            d0 = f'<svg><specs>{tmpl}</specs><var lab="OUT"/>' + inst(' lab=""', 0, f"[[{kp + 1}]]") + inst(' lab="in"', 1, "40") + inst("", 2, "80") + "</svg>"
+            d1 = "<svg>" + twn("", f"[[{kp + 1}]]") + twn("in", "40") + twn("OUT", "80") + "</svg>"
+        elif how == "g-attr":
+            d0 = f'<svg><specs>{tmpl}</specs><g lab="OUT">' + inst(' lab=""', 0, f"[[{kp + 1}]]") + inst("", 1, "40") + "</g></svg>"
+            d1 = '<svg><g lab="OUT">' + twn("", f"[[{kp + 1}]]") + twn("OUT", "40") + "</g></svg>"
+        elif how == "outer-reuse":
+            outer = '<g id="o"><reuse href="#t" w="$w" h="$h" lab="" x="0" y="0"/><reuse href="#t" w="$w" h="$h" x="0" y="50"/></g>'
+            d0 = f'<svg><specs>{tmpl}{outer}</specs><reuse href="#o" w="[[{kw}]]" h="[[{kw + 1}]]" lab="OUT"/></svg>'
+            t_in = lambda v, y: f'<rect xy="0 {y}" wh="[[{kw}]] [[{kw + 1}]]" {tw(v)}{"" if td["tgt"] == "class" else " class=" + chr(34) + "t" + chr(34)}/>'
+            d1 = '<svg><g class="o">' + t_in("", "0") + t_in("OUT", "50") + "</g></svg>"
+        else:
+            d0 = f'<svg><specs>{tmpl}</specs>' + inst(' lab=""', 0, f"[[{kp + 1}]]") + "</svg>"
+            d1 = "<svg>" + twn("", f"[[{kp + 1}]]") + "</svg>"
+        inst_vars.append(list(range(kw, len(vars_))))
+    elif fam == "nested":
+        # a template that itself instantiates another template, with its own parameters passed down
+        head = ('<specs><rect id="b" wh="$w 2"/>'
+                '<g id="a"><reuse href="#b" w="$p" x="0" y="0"/><reuse href="#b" w="$q" x="0" y="5"/></g></specs>')
+        for i in range(td["n"]):
+            kw = alloc([(6 + 2 * i, *S), (4 + i, *S)])
+            kp = len(vars_)
+            ra, _ta, nv = inst_attrs(td["place"], kp)
+            alloc([(10 + 20 * i, *V), (-7 * i, *V)][:nv])
+            inst_vars.append(list(range(kw, len(vars_))))
+            reuse_doc.append(f'<reuse id="n{i}" href="#a" p="[[{kw}]]" q="[[{kw + 1}]]"{ra}/>')
+            tx = {"xy-attrs": f' transform="translate([[{kp}]], [[{kp + 1}]])"', "none": ""}[td["place"]]
+            twin_doc.append(f'<g id="n{i}"{tx} class="a"><rect xy="0 0" wh="[[{kw}]] 2" class="b"/><rect xy="0 5" wh="[[{kw + 1}]] 2" class="b"/></g>')
+        d0 = "<svg>" + head + "".join(reuse_doc) + "</svg>"
+        d1 = "<svg>" + "".join(twin_doc) + "</svg>"
     elif fam == "textparam":
         kw = alloc([(6, *S), (4, *S)])
         kp = len(vars_)
@@ -208,7 +300,7 @@ def build(td, wrong=False):
         o0, o1 = Out(r.docs[0]["output"]), Out(r.docs[1]["output"])
         obls = []
         obls.append(Obl("specs-not-rendered", PASS if not o0.by_tag("specs") and not o0.by_tag("reuse") else FAIL, ground=True))
-        if fam in ("group", "symbol"):
+        if fam in ("group", "symbol", "groupfixed", "nested", "empty-binding"):
             # a group without a transform is a group translated by (0, 0): compared as such
             for o in (o0, o1):
                 for g in o.by_tag("g"):
@@ -231,7 +323,7 @@ def build(td, wrong=False):
                     obls.append(Obl(f"instance{i}-independent", PASS if not foreign else FAIL, ground=True, note=",".join(foreign)))
         return obls
     name = f"{fam}/" + "/".join(f"{k}={v}" for k, v in td.items() if k != "fam")
-    return Template(name, [d0, d1], vars_, check, family=fam, role=f"C18/{fam}", cap=8)
+    return Template(name, [d0, d1], vars_, check, family=fam, role=f"C18/{fam}", cap=8, assume=assume)
 
 
 import re
